@@ -244,7 +244,7 @@ func contains(xs []string, x string) bool {
 // multiScenarios: quick = every order of every argument set twice (absolute arguments and a content fix; relative
 // arguments and alternately a move), the declaration of the first place in a repository rotating through all kinds,
 // the state of the file in the other repository through all states, + the working directory inside the first
-// argument for every third; thorough = every declaration x spelling x kind, + declarations on every place
+// argument for every third; thorough = every declaration (spelling and state by rotation), + declarations on every place
 func multiScenarios(tier string) []*WS {
 	var out []*WS
 	bstates := []string{"modified", "staged", "untracked", "clean"}
@@ -295,18 +295,17 @@ func multiScenarios(tier string) []*WS {
 				}
 				continue
 			}
+			// thorough: every declaration with a spelling and a state by rotation (content fix), a move for every second
+			// declaration, + one with the declaration on every place, + one control with a dirty file in repository A
+			sps := []string{"abs", "rel-from-root", "rel-from-first"}
 			for mi, mark := range markers {
-				for si, sp := range []string{"abs", "rel-from-root", "rel-from-first"} {
-					for ki, kind := range []string{"content", "move"} {
-						if kind == "move" && (mi+si+n)%2 != 0 {
-							continue
-						}
-						out = append(out, mk(mark, bstates[(n+mi+si+ki)%len(bstates)], "clean", kind, sp, false))
-					}
+				out = append(out, mk(mark, bstates[(n+mi)%len(bstates)], "clean", "content", sps[(n+mi)%len(sps)], false))
+				if (mi+n)%2 == 0 {
+					out = append(out, mk(mark, bstates[(n+mi+1)%len(bstates)], "clean", "move", sps[(n+mi+1)%len(sps)], false))
 				}
-				out = append(out, mk(mark, bstates[(n+mi)%len(bstates)], "clean", "content", "abs", true))
-				out = append(out, mk(mark, "clean", "modified", "content", "rel-from-root", false))
 			}
+			out = append(out, mk(markers[n%len(markers)], bstates[n%len(bstates)], "clean", "content", "abs", true))
+			out = append(out, mk(markers[(n+2)%len(markers)], "clean", "modified", "content", "rel-from-root", false))
 		}
 	}
 	return out
@@ -581,7 +580,7 @@ func main() {
 			rng := hutil.NewRng(hutil.SeedFromEnv() ^ 0xC14)
 			nr, nm := 30, 10
 			if tier == "thorough" {
-				nr, nm = 1500, 600
+				nr, nm = 1500, 300
 			}
 			for i := 0; i < nr; i++ {
 				cases = append(cases, genRandom(rng, i))
